@@ -848,9 +848,11 @@ def run(tier):
     wd = tla.make_build_dir(PROP)
     capped = _Capped(cap=3)
     drift, traces = [], []
+    phase = {}
     try:
         # (a) TLC on the exact model
         res = run_model(systems, wd)
+        phase["mc_cg"] = round(time.time() - t0, 1)
         if res.violated:
             # an invariant of the *model* failed: the recurrence as transcribed does not have the property
             m = res.out
@@ -879,6 +881,7 @@ def run(tier):
             drift += d
             traces += tr
             nlock += nr
+        phase["lockstep"] = round(time.time() - t0, 1)
         # (c) control traces with genuine tolerances: catalog ...
         nctl = 0
         for v, tr, nr in _pmap(control_catalog, [(s, i, tier) for i, s in enumerate(systems)]):
@@ -899,9 +902,12 @@ def run(tier):
             opt_cases += st["opt_cases"]
             if len(large_samples) < 4:
                 large_samples.append(meta["case"])
+        phase["control_runs"] = round(time.time() - t0, 1)
         tres, rejected, nevents = validate_traces(traces, wd)
         trace_violations(traces, rejected, capped)
+        phase["trace_tlc"] = round(time.time() - t0, 1)
         neg_ok, neg_n = negative_controls(traces, wd)
+        phase["negative_controls"] = round(time.time() - t0, 1)
     finally:
         common.cleanup(wd)
     nontriv = sum(1 for i, s in enumerate(systems) for k in by_sys[i + 1] if k >= 1 and not all(s["zero"]))
@@ -922,7 +928,7 @@ def run(tier):
         "trace_events": nevents, "traces_rejected": len(rejected),
         "optimality_columns_checked": opt_checked, "optimality_systems_in_regime": opt_cases,
         "negative_controls_rejected": neg_ok, "negative_controls": neg_n,
-        "model_drift": len(drift), "model_drift_samples": drift[:5],
+        "model_drift": len(drift), "model_drift_samples": drift[:5], "phase_end_s": phase,
         "violations_by_signature": {" | ".join(map(str, k)): n for k, n in sorted(capped.count.items(), key=str)},
         "checker_cmd": "tlc MC_CG.tla (CGExact.tla + generated CGCatalog.tla) ; tlc Trace_CGControl.tla",
     }
